@@ -62,16 +62,37 @@ static void snap_obj(struct c16_snap *s, void *o)
 }
 static void snap_cstr(struct c16_snap *s, const void *p) { s->used = 1; snprintf(s->text, sizeof s->text, "%s", p ? (const char *) p : ""); }
 
-/* ---- accounting */
+/* ---- accounting.  A refused call must not leave its mark on the library's public global state either: the option
+ * parser's settings (flags, option table, bad-option counters), the runtime debug level, the program name. */
 static unsigned long tot0;
-static void c16_begin(void) { tot0 = ht_total(); ht_begin(); }
-static void c16_end(struct c16_out *o) { ht_end(); o->allocs = ht_total() - tot0; o->live = ht_live_count(); }
+struct c16_globals { spifopt_settings_t opts; unsigned int level; const void *progname; };
+extern spif_charptr_t libast_program_name;   /* debug.c; declared in libast_internal.h */
+static struct c16_globals g0;
+static void c16_globals_get(struct c16_globals *g) { g->opts = spifopt_settings; g->level = libast_debug_level; g->progname = libast_program_name; }
+static void c16_begin(void) { c16_globals_get(&g0); tot0 = ht_total(); ht_begin(); }
+static int c16_globals_changed;
+static void c16_end(struct c16_out *o)
+{
+    struct c16_globals g1;
+    ht_end(); o->allocs = ht_total() - tot0; o->live = ht_live_count();
+    c16_globals_get(&g1);
+    c16_globals_changed = (g1.opts.flags != g0.opts.flags || g1.opts.num_opts != g0.opts.num_opts || g1.opts.opt_list != g0.opts.opt_list || g1.opts.bad_opts != g0.opts.bad_opts
+                           || g1.opts.allow_bad != g0.opts.allow_bad || g1.level != g0.level || g1.progname != g0.progname);
+}
+int c16_globals_touched(void) { return c16_globals_changed; }
 static void *c16_slot(void *cls, int idx) { return ((void **) cls)[idx]; }
 
 #include "cells.inc"
 
 static struct c16_out out;
-int c16_init(long level, int silent) { ht_install(); libast_debug_level = (unsigned int) level; libast_set_silent(silent ? TRUE : FALSE); return 1; }
+int c16_init(long level, int silent)
+{
+    ht_install(); libast_debug_level = (unsigned int) level; libast_set_silent(silent ? TRUE : FALSE);
+    /* global settings in a non-default state, so that a refused call that resets them is seen */
+    SPIFOPT_FLAGS_SET(SPIFOPT_SETTING_PREPARSE | SPIFOPT_SETTING_REMOVE_ARGS);
+    SPIFOPT_ALLOWBAD_SET(3);
+    return 1;
+}
 /* -> 0 done, -1 no such call / cell */
 int c16_call(int fi, int mask, int shape)
 {
